@@ -48,7 +48,23 @@ def impl_c08(bits):
         out['second'] = ('Ok', type(m2).__name__, [(n, d[n]) for n in [f.name for f in type(m2).fields()]], m2)
     except Exception as e:
         out['second'] = ('Raise', type(e).__name__, str(e)[:200])
+    # the other public ways of encoding a decoded message: as a dictionary (asdict(), asdict(enum_as_int=True), and the merged
+    # dictionary of a received sentence, decode_and_merge()) through encode_dict -- they must produce the sentences encode_msg does
+    routes = {}
+    for name, fn in (('encode_dict(msg.asdict())', lambda: pyais.encode_dict(msg.asdict())),
+                     ('encode_dict(msg.asdict(enum_as_int=True))', lambda: pyais.encode_dict(msg.asdict(enum_as_int=True))),
+                     ('encode_dict(sentence.decode_and_merge())', lambda: pyais.encode_dict(_sentence_of(bits).decode_and_merge()))):
+        try:
+            routes[name] = list(fn())
+        except Exception as e:      # noqa: BLE001
+            routes[name] = ('Raise', type(e).__name__, str(e)[:120])
+    out['routes'], out['sentences'] = routes, list(sentences)
     return out
+
+
+def _sentence_of(bits):
+    from pyais.stream import IterMessages
+    return next(iter(IterMessages(ais.bits_to_sentences(bits))))
 
 
 def canon(t):
@@ -112,6 +128,12 @@ def oracle(rep, bits, spec, impl, replay):
     if second[0] != 'Ok':
         viol('exception', f'exception:{second[1]}', f'decoding the re-encoded message raised {second[1]}')
         return n
+    for name, r in (impl.get('routes') or {}).items():
+        if r != impl.get('sentences'):
+            viol('other-encoding-route', 'route-dependent',
+                 f'{name} gives {r[:2] if isinstance(r, tuple) else [x[:60] for x in r[:2]]}, encode_msg(msg) gives '
+                 f'{[x[:60] for x in impl["sentences"][:2]]}', '')
+            break
     c1, c2 = canon(first), canon(second)
     if c1[1] != c2[1]:
         viol('variant', 'wrong-class', f'decodes as {c1[1]}, after re-encoding as {c2[1]}')
